@@ -198,6 +198,8 @@ def _install_base(e):
     def ssend_havoc(c, a, old, k):
         c.ghost["wire"] = c.fresh("bytes", "wire")
         c.ghost["tx_calls"] = c.fresh("int", "tx_calls")
+        c.ghost["$last_send_data"] = a["data"]
+        c.ghost["$last_send_sock"] = a["sock"]
     e.add(Contract(SK + "send", cases=ssend_cases(), ensures=lambda c, old, a, res: z3.And(
                        ssend_post(c, old, a, res), z3.BoolVal(a["sock"] is not None),
                        z(c.ghost["tx_calls"]) >= z(old.ghost["tx_calls"]) + (1 if res is not None else 0),
